@@ -45,6 +45,11 @@ func raceClass(site string) string {
 	if i := strings.Index(f, ".func"); i > 0 {
 		f = f[:i]
 	}
+	if strings.HasPrefix(f, "openid.") && reRecvType.FindStringSubmatch(f) == nil {
+		// a method with a value receiver (openid.DefaultStrategy.GenerateIDToken) or a function of the package: same class
+		// as below
+		return "openid.DefaultSession"
+	}
 	if m := reRecvType.FindStringSubmatch(f); m != nil {
 		typ := m[1] + "." + m[2]
 		if m[1] == "openid" {
